@@ -30,9 +30,13 @@ RULE = ('corpus (perimeter first-use race, raising mix, reference-count race pro
 ASSUMPTIONS = [
     'PROVED (Lean, about the model): T1 C12_interleaving_independent* / C12_schedule_independent / C12_shared_unchanged / '
     'C12_no_observation_of_others; T2 C12_gil_discipline_* ; T2/T3 over the tables extracted from the current sources: '
-    'C12_release_sites_disciplined, C12_no_shared_writes',
-    'VALIDATED ONLY (thread stress samples schedules, it does not enumerate them): that the compiled kernels are confined '
-    '(touch only their arguments, outputs and locals), data races inside C++ and CPython/numpy guarantees',
+    'C12_release_sites_disciplined, C12_no_shared_writes, C12_python_globals_benign (no exception list); T4 about the '
+    'address-level access programs of erode / convolve / label / cwatershed / labeled_foldl: C12_kernel_confined, '
+    'C12_concurrent_kernels_independent, value ties C12_{erode,convolve,labeled_fold}_program_computes_model '
+    '(label / cwatershed: read/write sets only, C12_label_cwatershed_traces_partial)',
+    'VALIDATED ONLY (thread stress samples schedules, it does not enumerate them): that the compiled kernels perform the '
+    'accesses of those access programs, i.e. are confined (touch only their arguments, outputs and locals), data races '
+    'inside C++ and CPython/numpy guarantees',
     'inputs are valid for every kernel (C-contiguous, non-empty, matching ranks): crashes on malformed input belong to C11',
     'shared inputs are marked read-only where the wrapper accepts read-only arrays (else shared but writeable, never written)',
     'results are compared bit-for-bit (dtype, shape, bytes; NaN patterns included), exceptions by type and message',
